@@ -1006,7 +1006,9 @@ def skeleton_translation(res, tier, seed, workdir, stats, pid="C05"):
     """tie of the CONTROL SKELETON that C05's buffering theorem is about: `skelgen` translates `append` (data of symbolic
     length: the buffer test, the chunk loop as `absorb`, fill / set_to / inner as their Pkt models, `update(data_to_lanes(..))`
     as the abstract `upd`) and the prologue of finalize64/128/256 (remainder test, round count) of all five back ends from the
-    working tree, and each is proved equal to the model's `appendG` / `finalizeCommon K` for every state and byte string (rfl).
+    working tree, and each is proved equal to the model's `appendG` / `finalizeCommon K` for every state and byte string (rfl);
+    HashPacket::{fill, set_to, len, is_empty, inner, as_slice} of src/internal.rs are translated with slices as lists
+    (a view = offset + length, copy_from_slice = take ++ src ++ drop, split_at = take/drop) and proved equal to the Pkt model.
     Advisory: an untranslatable function is 'not translated'; a failing theorem escalates the search, never an alarm by itself."""
     cdir = os.path.join(hh.ROOT, "harness", "facts")
     rc, out, err = hh.sh(["cargo", "build", "--offline", "--release", "-q"], cwd=cdir, env={"CARGO_TARGET_DIR": os.path.join(hh.BUILD, "t-facts")}, timeout=1800)
@@ -1031,8 +1033,13 @@ def skeleton_translation(res, tier, seed, workdir, stats, pid="C05"):
     info["functions"] = st
     translated = [k for k, v in st.items() if v == "translated"]
     thms = []
+    pk = {"fill": "fill_eq", "set_to": "setTo_eq", "len": "len_eq", "is_empty": "isEmpty_eq", "inner": "inner_eq", "as_slice": "asSlice_eq"}
     for f in translated:
         ty, fn = f.split("::")
+        if ty == "HashPacket":
+            if fn in pk:
+                thms.append("HH.Gen.Skel.Packet." + pk[fn])
+            continue
         tag = SKEL_TAGS.get(ty)
         if not tag:
             continue
